@@ -416,6 +416,47 @@ extra_dyn!(Bv);
 
 // ---------------------------------------------------------------------------------------------
 
+/// an iterator reporting an arbitrary size hint (honest lower bound, loose or absent upper bound)
+struct HintIter<I: Iterator<Item = Bit>> {
+    it: I,
+    lo: usize,
+    hi: Option<usize>,
+}
+impl<I: Iterator<Item = Bit>> Iterator for HintIter<I> {
+    type Item = Bit;
+    fn next(&mut self) -> Option<Bit> {
+        self.it.next()
+    }
+    fn size_hint(&self) -> (usize, Option<usize>) {
+        (self.lo, self.hi)
+    }
+}
+fn hinted(bits: Vec<Bit>, lo: usize, mode: u128) -> HintIter<std::vec::IntoIter<Bit>> {
+    let n = bits.len();
+    let hi = match mode {
+        1 => None,
+        2 => Some(usize::MAX),
+        3 => Some(n),
+        _ => Some(n.max(lo).saturating_mul(2)),
+    };
+    HintIter { it: bits.into_iter(), lo: lo.min(n), hi }
+}
+
+/// a reader that hands out at most `chunk` bytes per read() call (short reads are legal for io::Read)
+struct Dribble {
+    data: Vec<u8>,
+    pos: usize,
+    chunk: usize,
+}
+impl std::io::Read for Dribble {
+    fn read(&mut self, buf: &mut [u8]) -> std::io::Result<usize> {
+        let n = buf.len().min(self.chunk).min(self.data.len() - self.pos);
+        buf[..n].copy_from_slice(&self.data[self.pos..self.pos + n]);
+        self.pos += n;
+        Ok(n)
+    }
+}
+
 enum It<'a, A: BitVector> {
     F(bva::BitIterator<'a, A>),
     R(std::iter::Rev<bva::BitIterator<'a, A>>),
@@ -532,17 +573,29 @@ fn ctor<K: Extra + FromIterator<Bit>>(c: &Case) -> Res {
         }
         7 => {
             let bytes: Vec<u8> = c.l(0).iter().map(|x| *x as u8).collect();
-            let mut rd = std::io::Cursor::new(bytes.clone());
-            match K::read(&mut rd, c.a(0) as usize, endian(c.a(1))) {
-                Ok(v) => Res::Ok(vec![Item::V(v.to_raw()), Item::N((bytes.len() as u64 - rd.position()) as u128)]),
-                Err(e) => io_code(&e),
+            if c.a(2) == 0 {
+                let mut rd = std::io::Cursor::new(bytes.clone());
+                match K::read(&mut rd, c.a(0) as usize, endian(c.a(1))) {
+                    Ok(v) => Res::Ok(vec![Item::V(v.to_raw()), Item::N((bytes.len() as u64 - rd.position()) as u128)]),
+                    Err(e) => io_code(&e),
+                }
+            } else {
+                // arg 2: 1 = one byte per read() call, 2 = three bytes per call
+                let mut rd = Dribble { data: bytes.clone(), pos: 0, chunk: if c.a(2) == 1 { 1 } else { 3 } };
+                match K::read(&mut rd, c.a(0) as usize, endian(c.a(1))) {
+                    Ok(v) => Res::Ok(vec![Item::V(v.to_raw()), Item::N((bytes.len() - rd.pos) as u128)]),
+                    Err(e) => io_code(&e),
+                }
             }
         }
         8 => K::from_u(c.a(0), c.a(2), c.a(1), c.form == 1),
         9 => K::from_sl(c.a(0), c.a(1), c.l(0)),
         10 => {
             let bits: Vec<Bit> = c.l(0).iter().map(|b| bit_of(*b)).collect();
-            let v: K = if c.a(0) as usize == bits.len() {
+            // arg 0: size_hint lower bound; arg 1: 0 natural iterator, 1..4 explicit hint (lo, None | MAX | exact | loose)
+            let v: K = if c.a(1) != 0 {
+                hinted(bits, c.a(0) as usize, c.a(1)).collect()
+            } else if c.a(0) as usize == bits.len() {
                 bits.into_iter().collect()
             } else {
                 // an iterator whose size_hint lower bound is 0
@@ -666,7 +719,9 @@ fn unary<A: Extra + Extend<Bit>>(c: &Case) -> Res {
         }
         58 => {
             let bits: Vec<Bit> = c.l(0).iter().map(|b| bit_of(*b)).collect();
-            if c.a(0) as usize == bits.len() {
+            if c.a(1) != 0 {
+                a.extend(hinted(bits, c.a(0) as usize, c.a(1)));
+            } else if c.a(0) as usize == bits.len() {
                 a.extend(bits.into_iter());
             } else {
                 a.extend(bits.into_iter().filter(|_| true));
@@ -804,6 +859,31 @@ macro_rules! pair_ops {
     }};
 }
 
+/// both operands are the SAME object: `&a op &a`, `a == a`, `a.cmp(&a)`
+macro_rules! self_ops {
+    ($c:expr, $A:ident) => {{
+        #[inline(never)]
+        fn run(c: &Case) -> Res {
+            let a = <$A>::from_raw(&c.vals[0]);
+            let r: $A = match c.op {
+                63 => &a & &a,
+                64 => &a | &a,
+                65 => &a ^ &a,
+                66 => &a + &a,
+                67 => &a - &a,
+                68 => &a * &a,
+                69 => &a / &a,
+                _ => &a % &a,
+            };
+            if a.to_raw() != c.vals[0] {
+                return Res::Err(11, 0);
+            }
+            v1(&r)
+        }
+        run($c)
+    }};
+}
+
 macro_rules! pair_gen {
     ($c:expr, $A:ident, $B:ident) => {{
         #[inline(never)]
@@ -849,6 +929,9 @@ fn exec_inner(c: &Case) -> Res {
         }
         34 | 35 | 46 | 47 | 48 | 71 => {
             with_kind!(c.vals[0].kid, A => with_kind!(c.vals[1].kid, B => pair_gen!(c, A, B)))
+        }
+        63..=70 if c.vals.len() == 2 && c.form == 6 && c.vals[0] == c.vals[1] => {
+            with_kind!(c.vals[0].kid, A => self_ops!(c, A))
         }
         63..=70 if c.vals.len() == 2 => {
             with_kind!(c.vals[0].kid, A => with_kind!(c.vals[1].kid, B => pair_ops!(c, A, B)))
